@@ -94,7 +94,7 @@ type Path struct {
 	Events   []Event
 	Ret      []*Term
 	Problems []string
-	Panic    bool   // the path ends in an explicit panic
+	Panic    bool // the path ends in an explicit panic
 	PanicPos string
 }
 
@@ -285,7 +285,19 @@ func (it *Interp) block(fr *frame, b, prev *ssa.BasicBlock, st *State, k cont) {
 	it.instrs(fr, b, i, st, k)
 }
 
+// val is the term of an SSA value at the current point of the path: a boolean term whose truth the path condition
+// already fixes (it was branched on earlier, here or in a callee that returned it) is that truth value.
 func (it *Interp) val(fr *frame, v ssa.Value, st *State) *Term {
+	t := it.valRaw(fr, v, st)
+	if t != nil && (t.Op == "cmp" || t.Op == "not") {
+		if b, ok := st.known(t); ok {
+			return Bool(b)
+		}
+	}
+	return t
+}
+
+func (it *Interp) valRaw(fr *frame, v ssa.Value, st *State) *Term {
 	if t, ok := fr.env[v]; ok {
 		return t
 	}
